@@ -177,6 +177,10 @@ theorem step_good {R h} (s : St R h) (op : Op) (ho : op.InR R) : Good R h (step 
       | listInnerSet c i j str =>
         have := good_listInnerSet s c i j str (ho.2 c (by simp [Op.lists])) (hguard.2 c (by simp [Op.lists]))
         simp only [optErr]; split <;> simp_all
+      | valueInnerSet p i j str =>
+        have := good_valueInnerSet s p i j str (ho.1 p (by simp [Op.objs])) (hguard.1 p (by simp [Op.objs]))
+          (hkind p (by simp [Op.props]))
+        simp only [optErr]; split <;> simp_all
       | newObj k name attrs vals => exact good_newObj s k name attrs vals
       | append p x =>
         have := good_append s p x (ho.1 p (by simp [Op.objs])) (ho.1 x (by simp [Op.objs]))
